@@ -3,6 +3,7 @@ package props
 import (
 	"fmt"
 	"go/ast"
+	"go/types"
 	"sort"
 	"strings"
 
@@ -244,7 +245,7 @@ func C04(p *core.Program, r *core.Report) {
 			Atoms: map[string]string{
 				"display.none": q(`domutil.GetDisplayStyle($0) == "none"`),
 				"hidden.attr":  q(`dom.HasAttribute($0,"hidden")`),
-				"visibility":   q(`regexp.Regexp.MatchString(domutil.rxVisibilityHidden,dom.GetAttribute($0,"style"))`),
+				"visibility":   q(`regexp.Regexp.MatchString(` + rxVisibility + `,dom.GetAttribute($0,"style"))`),
 				"aria.absent":  q(`dom.GetAttribute($0,"aria-hidden") == ""`),
 				"aria.true":    q(`dom.GetAttribute($0,"aria-hidden") == "true"`),
 			},
@@ -256,6 +257,7 @@ func C04(p *core.Program, r *core.Report) {
 				{Name: "aria-hidden other than true", Guard: core.Not(core.A("aria.true")), Outcome: "return true"},
 				{Name: "aria-hidden=true: only the Wikimedia math fallback image stays", Guard: core.True(), Outcome: `return strings.Contains(dom.GetAttribute($0,"class"),"fallback-image")`},
 			},
+			Excl: [][2]string{{"aria.absent", "aria.true"}},
 		}
 		core.CheckDecisionList(r, "V3", "IsProbablyVisible", paths, atoms, spec)
 	}
@@ -269,8 +271,8 @@ func C04(p *core.Program, r *core.Report) {
 		}})
 		ok := false
 		for _, pa := range paths {
-			if len(pa.Lits) == 1 && strings.HasPrefix(pa.Lits[0].Atom, `len(regexp.Regexp.FindStringSubmatch(domutil.rxDisplay,dom.GetAttribute($0,"style"))) <= 1`) && !pa.Lits[0].Val &&
-				pa.Outcome == `return regexp.Regexp.FindStringSubmatch(domutil.rxDisplay,dom.GetAttribute($0,"style"))[1]` {
+			if len(pa.Lits) == 1 && strings.HasPrefix(pa.Lits[0].Atom, `len(regexp.Regexp.FindStringSubmatch(`+rxDisplay+`,dom.GetAttribute($0,"style"))) <= 1`) && !pa.Lits[0].Val &&
+				pa.Outcome == `return regexp.Regexp.FindStringSubmatch(`+rxDisplay+`,dom.GetAttribute($0,"style"))[1]` {
 				ok = true
 			}
 		}
@@ -278,7 +280,7 @@ func C04(p *core.Program, r *core.Report) {
 		for _, t := range []string{"script", "style"} {
 			n, okT := 0, true
 			for _, pa := range consistentWith(paths, "dom.TagName($0)", t) {
-				if len(pa.Lits) > 0 && strings.HasPrefix(pa.Lits[0].Atom, "len(regexp.Regexp.FindStringSubmatch(domutil.rxDisplay,") && !pa.Lits[0].Val {
+				if len(pa.Lits) > 0 && strings.HasPrefix(pa.Lits[0].Atom, "len(regexp.Regexp.FindStringSubmatch("+rxDisplay+",") && !pa.Lits[0].Val {
 					continue // inline display given
 				}
 				n++
@@ -289,14 +291,7 @@ func C04(p *core.Program, r *core.Report) {
 			r.Add("V3", "default display of <"+t+"> is none", p.Pos(gd.Pos()), okT && n > 0, fmt.Sprintf("%d decision paths for the tag without inline display", n))
 		}
 	}
-	lits := regexpLiterals(p, "internal/domutil")
-	wantRx := map[string]string{
-		"rxDisplay":          `(?i)display:\s*([\w-]+)\s*(?:;|$)`,
-		"rxVisibilityHidden": `(?i)visibility:\s*(:?hidden|collapse)`,
-	}
-	for n, w := range wantRx {
-		r.Add("V3", "pattern domutil."+n+" is the reviewed one", "", lits[n] == w, fmt.Sprintf("%q", lits[n]))
-	}
+	// (the two patterns are pinned by the atoms above: private regexps are named by their pattern)
 
 	// ---- V4
 	if tbl := converterSwitch(p, r, "V4"); tbl != nil {
@@ -310,13 +305,13 @@ func C04(p *core.Program, r *core.Report) {
 	// ---- V5
 	var innerFinder *ssa.Function
 	if itf := mustFunc(p, r, "V5", domutilPkg+".InnerText"); itf != nil {
-		for _, f := range closuresOf(itf) {
-			if len(core.Calls(f, func(ci ssa.CallInstruction) bool { return core.IsCallTo(ci, "(*bytes.Buffer).WriteString") })) > 0 {
+		for _, f := range recursiveWorkers(p, itf) {
+			if len(core.Calls(p.Inlined(f), func(ci ssa.CallInstruction) bool { return core.IsCallTo(ci, "(*bytes.Buffer).WriteString") })) > 0 {
 				innerFinder = f
 			}
 		}
 		if innerFinder == nil {
-			r.Undecided("V5", "InnerText: the recursive text collector", "no closure of InnerText writes to the buffer")
+			r.Undecided("V5", "InnerText: the recursive text collector", "no self-recursive closure/helper of InnerText writes to the buffer")
 		}
 	}
 	if it := p.Inlined(innerFinder); it != nil {
@@ -333,8 +328,14 @@ func C04(p *core.Program, r *core.Report) {
 					if strings.HasPrefix(s, "bytes.Buffer.WriteString(") {
 						return "write " + c.Of(call.Call.Args[1]), true
 					}
-					if strings.HasPrefix(s, "dyn:") {
-						return "recurse " + argsCanon(c, call, 0), true
+					if isSelfCall(p, innerFinder, call) {
+						var nodes []string
+						for _, a := range call.Call.Args {
+							if types.TypeString(a.Type(), func(p *types.Package) string { return p.Name() }) == "*html.Node" {
+								nodes = append(nodes, c.Of(a))
+							}
+						}
+						return "recurse " + strings.Join(nodes, ","), true
 					}
 				}
 				return "", false
@@ -343,18 +344,20 @@ func C04(p *core.Program, r *core.Report) {
 		if err != nil {
 			r.Undecided("V5", "InnerText", err.Error())
 		}
-		child := `μ($0.FirstChild|@0.NextSibling)`
+		// the node parameter of the collector ($0 for the closure form, any position for a named helper)
+		N := fmt.Sprintf("$%d", paramIndexOfType(it, "*html.Node"))
+		child := `μ(` + N + `.FirstChild|@0.NextSibling)`
 		spec := core.DecisionSpec{
 			Atoms: map[string]string{
-				"text":     q(`$0.Type == html.TextNode`),
-				"element":  q(`$0.Type == html.ElementNode`),
-				"br":       q(`$0.Data == "br"`),
-				"visible":  q(`domutil.IsProbablyVisible($0)`),
+				"text":     q(`` + N + `.Type == html.TextNode`),
+				"element":  q(`` + N + `.Type == html.ElementNode`),
+				"br":       q(`` + N + `.Data == "br"`),
+				"visible":  q(`domutil.IsProbablyVisible(` + N + `)`),
 				"children": q(`loop1(` + child + ` == nil)`),
 			},
 			Rules: []core.SpecRule{
-				{Name: "text node (no children)", Guard: core.And(core.A("text"), core.A("children")), Outcome: `write ((" " + $0.Data) + " ") => done`},
-				{Name: "text node", Guard: core.A("text"), Outcome: `write ((" " + $0.Data) + " "); recurse ` + child + ` => done`},
+				{Name: "text node (no children)", Guard: core.And(core.A("text"), core.A("children")), Outcome: `write ((" " + ` + N + `.Data) + " ") => done`},
+				{Name: "text node", Guard: core.A("text"), Outcome: `write ((" " + ` + N + `.Data) + " "); recurse ` + child + ` => done`},
 				{Name: "line break", Guard: core.And(core.A("element"), core.A("br")), Outcome: `write "|\\/|" => done`},
 				{Name: "hidden element: not descended", Guard: core.And(core.A("element"), core.Not(core.A("visible"))), Outcome: "done"},
 				{Name: "no children", Guard: core.A("children"), Outcome: "done"},
